@@ -98,7 +98,7 @@ fn gen_program(r: &mut Rng, f: &Frame, complete: bool, allow_stream_owned: bool)
     Program {
         front,
         ops,
-        source: SourceScript { chunks: gen_chunks(r), eof_at: None, faults: vec![] },
+        source: SourceScript { chunks: gen_chunks(r), eof_at: None, faults: vec![], pauses: vec![] },
         finisher: complete,
         explicit_init: true,
         target: f.data.len() + *r.pick(&[0usize, 0, 16]),
